@@ -126,7 +126,18 @@ def main():
     props = {"theorems": [], "assumptions": {}, "ok": False, "log": blog, "refuted": [], "partial": []}
     res = None
     if ok_build:
+        # properties with a translator regenerate their Gen file from /repo's working tree first
+        try:
+            mod0 = importlib.import_module(pid.lower())
+            if hasattr(mod0, "pre_props"):
+                okg, msg = mod0.pre_props()
+                if not okg:
+                    notes.append("translator/Gen: " + msg)
+        except Exception:
+            notes.append("pre_props crashed: " + traceback.format_exc()[-1500:])
         props = check_props(pid)
+        if notes and any(n.startswith("translator/Gen") for n in notes):
+            props["ok"] = False; props["log"] = "\n".join(notes) + "\n" + props["log"]
         if args.tier == "thorough":
             rc, out = sh("timeout 3000 coqchk -silent -o -Q . NV NV.Props.%s" % pid, cwd=os.path.join(VERIF, "coq"), timeout=3100)
             props["coqchk_rc"] = rc
